@@ -2,6 +2,8 @@
    T|<ns>|<tokens>   ns = prefix:uri;...   tokens = type:value;...     -> result of Selector.select
    A|<ns>|<ast words> (prefix notation, see harness/props/c16.py)       -> "<declared> <b> <c> <d>|<tokens>|<result>"
    H|<ns>|<tokens>#<tokens>#...   successive assignments to one Selector -> EMPTY | CRASH | ACC ... (what it holds)
+   P|<raising 0/1>|<step>#<step>...   step = S/<tokens> | C/<ispage>/<O|L|R>/<selector tokens>: assignments to one
+                     CSSPageRule; after each step "n f l~items@" (UNMOD@ and stop when not modelled)
    N|<str>           -> "<Selector.normalize>|<Tokenizer.normalize>"
    result = CRASH | REJ | ACC <b> <c> <d>|typ~kind~a~b;...                                                  *)
 open Selector_model
@@ -111,6 +113,25 @@ let () =
                   | q -> let ((b, c), d) = h.h_spec in
                     Printf.sprintf "ACC %d %d %d|%s" (int_of_nat b) (int_of_nat c) (int_of_nat d)
                       (String.concat ";" (List.map item_out q))))
+        | ["P"; raising; hist] ->
+          let raising = raising = "1" in
+          let toks x = List.map (fun (a, b) -> { sty = tty_of_str a; sval = b }) (List.map pair (split ';' x)) in
+          let step x = match String.split_on_char '/' x with
+            | ["S"; ts] -> ASel (toks ts)
+            | ["C"; ip; f; ts] -> ACss (ip = "1", toks ts, (match f with "O" -> BOk | "L" -> BLogged | _ -> BReject))
+            | _ -> failwith "step" in
+          let out = Buffer.create 64 in
+          let rec go h = function
+            | [] -> ()
+            | a :: r -> (match page_assign raising h a with
+                | None -> Buffer.add_string out "UNMOD@"
+                | Some h' ->
+                  let ((n, f), l) = h'.ph_spec in
+                  Buffer.add_string out (Printf.sprintf "%d %d %d~%s@" (int_of_nat n) (int_of_nat f) (int_of_nat l)
+                    (String.concat ";" (List.map (fun (a, b) -> str_out a ^ ":" ^ str_out b) h'.ph_seq)));
+                  go h' r) in
+          go pheld0 (List.map step (String.split_on_char '#' hist));
+          print_endline (Buffer.contents out)
         | ["N"; x] -> let v = str_in x in print_endline (str_out (sel_normalize v) ^ "|" ^ str_out (tok_normalize v))
         | _ -> print_endline "BAD"
       with Failure m -> print_endline ("BAD " ^ m) | Invalid_argument m -> print_endline ("BAD " ^ m))
